@@ -65,11 +65,25 @@ Definition steps_f (start : tv) (ts : list tv) : list tv := map rnd64 (steps sta
 Definition model_of_f (G : guard_table) (E : empty_table) (SR : sr_policy) (c : c02_case) : outcome Z :=
   round_outcome (model_of G E SR c).
 
+(* the ReadoutProperties object holds the binary64 steps *)
+Definition round_rp (p : rp_state) : rp_state :=
+  {| rp_times := rp_times p; rp_steps := map rnd64 (rp_steps p); rp_num := rp_num p; rp_start := rp_start p;
+     rp_nd := rp_nd p; rp_time := rp_time p; rp_step := rnd64 (rp_step p); rp_count := rp_count p |}.
+
 Definition case_mismatch_f (G : guard_table) (E : empty_table) (SR : sr_policy) (c : c02_case) : bool :=
   negb match model_of_f G E SR c, k_obs c with
        | Rejected s, IRejected s' n => Z.eqb s s' && Z.eqb n 0%Z
        | Ran os, IRan os' => list_eqb obs_eqb os os'
        | _, _ => false
+       end.
+
+(* informational only *)
+Definition case_after_differs_f (G : guard_table) (E : empty_table) (SR : sr_policy) (c : c02_case) : bool :=
+  negb match k_obs c with
+       | IRan _ =>
+           let st := state_after G E SR c in
+           after_ok {| ds_det := ds_det st; ds_rp := option_map round_rp (ds_rp st) |} (k_after c)
+       | IRejected _ _ => after_ok (state_after G E SR c) (k_after c)
        end.
 
 (* the specification with the binary64 closed form of the clock:
@@ -97,3 +111,5 @@ Definition case_violates_f (c : c02_case) : bool :=
 Definition mismatches_f (G : guard_table) (E : empty_table) (SR : sr_policy) (cs : list c02_case) : list Z :=
   indices_where (case_mismatch_f G E SR) cs 0%Z.
 Definition violations_f (cs : list c02_case) : list Z := indices_where case_violates_f cs 0%Z.
+Definition after_differs_f (G : guard_table) (E : empty_table) (SR : sr_policy) (cs : list c02_case) : list Z :=
+  indices_where (case_after_differs_f G E SR) cs 0%Z.
